@@ -629,7 +629,13 @@ func cmdCheck(args []string) int {
 
 	// classify violations
 	known := loadKnown()
-	sort.SliceStable(allViol, func(i, j int) bool { return allViol[i].Run < allViol[j].Run })
+	// plain-build findings first (they are minimised in-process), then by run index
+	sort.SliceStable(allViol, func(i, j int) bool {
+		if allViol[i].Race != allViol[j].Race {
+			return !allViol[i].Race
+		}
+		return allViol[i].Run < allViol[j].Run
+	})
 	exit := 0
 	nViol := 0
 	var knownLines []string
@@ -840,7 +846,7 @@ func runBatch(sc *scratch, id, tier string, seed uint64, nruns, nrace int64, nw 
 					if end > nrace {
 						end = nrace
 					}
-					res := runWorker(sc.workerRace, []string{"GORACE=log_path=" + logp + " halt_on_error=0 history_size=2", "VERIF_RACE_LOG=" + logp},
+					res := runWorker(sc.workerRace, []string{"GORACE=log_path=" + logp + " halt_on_error=0 exitcode=0", "VERIF_RACE_LOG=" + logp},
 						10*time.Minute, 64<<20,
 						"batch", "-prop", id, "-seed", fmt.Sprint(seed), "-tier", tier,
 						"-start", fmt.Sprint(c*raceChunk), "-stride", "1", "-n", fmt.Sprint(end),
@@ -958,10 +964,12 @@ func writeReplay(sc *scratch, id, tier string, v *violationRec) string {
 	bin := sc.worker
 	tries := 1
 	var env []string
-	if v.Race && v.Violation.Oracle == "C20/O3-data-race" {
+	if v.Race {
 		bin = sc.workerRace
-		tries = 3
-		env = []string{"GORACE=log_path=" + filepath.Join(sc.dir, "replay-race") + " halt_on_error=0", "VERIF_RACE_LOG=" + filepath.Join(sc.dir, "replay-race")}
+		if v.Violation.Oracle == "C20/O3-data-race" {
+			tries = 3
+		}
+		env = []string{"GORACE=log_path=" + filepath.Join(sc.dir, "replay-race") + " halt_on_error=0 exitcode=0", "VERIF_RACE_LOG=" + filepath.Join(sc.dir, "replay-race")}
 	}
 	check := func() bool {
 		for t := 0; t < tries; t++ {
@@ -1009,14 +1017,14 @@ func cmdReplay(args []string) int {
 		fmt.Fprintln(os.Stderr, "verifctl: bad replay file:", err)
 		return 2
 	}
-	race := rf.RaceBuild && rf.OracleID == "C20/O3-data-race"
+	race := rf.RaceBuild
 	sc := prepare("replay", race)
 	defer cleanup()
 	bin := sc.worker
 	var env []string
 	if race {
 		bin = sc.workerRace
-		env = []string{"GORACE=log_path=" + filepath.Join(sc.dir, "replay-race") + " halt_on_error=0", "VERIF_RACE_LOG=" + filepath.Join(sc.dir, "replay-race")}
+		env = []string{"GORACE=log_path=" + filepath.Join(sc.dir, "replay-race") + " halt_on_error=0 exitcode=0", "VERIF_RACE_LOG=" + filepath.Join(sc.dir, "replay-race")}
 	}
 	outp := filepath.Join(sc.dir, "replay-result.json")
 	res := runWorker(bin, env, 10*time.Minute, 16<<20, "replay", "-file", path, "-out", outp)
@@ -1070,17 +1078,23 @@ func writeEvidence(sc *scratch, id, tier string, seed uint64, seeds []uint64, m 
 	if agg.batchWall > 0 {
 		perHour = float64(totalRuns) / agg.batchWall * 3600
 	}
-	var uncatalogued []string
+	uncatalogued := []string{}
 	catalogued := 0
 	if id == "C20" {
 		for _, a := range sc.report.API {
 			if !a.Aggregate {
 				continue
 			}
-			if agg.ops["api:"+a.Name] > 0 || agg.ops["api-excluded:"+a.Name] > 0 {
+			name := a.Name
+			if i := strings.LastIndex(name, "/"); i >= 0 {
+				name = name[i+1:]
+			}
+			_, in := agg.ops["api:"+name]
+			_, ex := agg.ops["api-excluded:"+name]
+			if in || ex {
 				catalogued++
 			} else {
-				uncatalogued = append(uncatalogued, a.Name)
+				uncatalogued = append(uncatalogued, name)
 			}
 		}
 	}
@@ -1162,7 +1176,7 @@ func cmdSelftest(args []string) int {
 		ids = []string{"C09", "C13", "C14", "C18", "C20"}
 	}
 	// lint: the harness and the kernel never range over a map except to sort keys, and never use sync.Map
-	if out, _ := run(verifDir, os.Environ(), "grep", "-rn", "--include=*.go", "-E", `\.Range\(|sync\.Map`, "harness", "simhook"); strings.TrimSpace(out) != "" {
+	if out, _ := run(verifDir, os.Environ(), "grep", "-rn", "--include=*.go", "-E", `\.Range\(func|sync\.Map`, "harness", "simhook"); strings.TrimSpace(out) != "" {
 		fmt.Printf("lint: sync.Map / .Range( found:\n%s\n", out)
 		return 1
 	}
@@ -1185,7 +1199,7 @@ func cmdSelftest(args []string) int {
 		cfgs := []cfg{{sc.worker, 1, "plain/1"}, {sc.worker, 4, "plain/4"}, {sc.worker, 16, "plain/16"}, {sc.worker, 16, "plain/16b"}}
 		n := nruns
 		if id == "C20" {
-			cfgs = append(cfgs, cfg{sc.workerRace, 2, "race/2"}, cfg{sc.workerRace, 16, "race/16"})
+			cfgs = append(cfgs, cfg{sc.workerRace, 2, "race/2"}, cfg{sc.workerRace, 16, "race/16"}, cfg{sc.workerRace, 4, "race/4"})
 		}
 		// every configuration executes the same run indices, split over 8 processes
 		const procsPer = 8
@@ -1205,7 +1219,7 @@ func cmdSelftest(args []string) int {
 					env := []string{fmt.Sprintf("GOMAXPROCS=%d", c.procs)}
 					if strings.HasPrefix(c.label, "race") {
 						lp := filepath.Join(sc.dir, fmt.Sprintf("st-race-%s-%d", strings.ReplaceAll(c.label, "/", "_"), p))
-						env = append(env, "GORACE=log_path="+lp+" halt_on_error=0", "VERIF_RACE_LOG="+lp)
+						env = append(env, "GORACE=log_path="+lp+" halt_on_error=0 exitcode=0", "VERIF_RACE_LOG="+lp)
 					}
 					res := runWorker(c.bin, env, 20*time.Minute, 64<<20, "batch", "-prop", id, "-seed", fmt.Sprint(seed), "-tier", "quick",
 						"-start", fmt.Sprint(p), "-stride", fmt.Sprint(procsPer), "-n", fmt.Sprint(n), "-out", out, "-digests", dg, "-noshrink", "-maxviol", "1000000")
@@ -1229,7 +1243,9 @@ func cmdSelftest(args []string) int {
 				fmt.Printf("selftest %s %s: worker failed: %s\n", id, c.label, bad)
 				return 2
 			}
-			if refLabel == "" {
+			if refLabel == "" || strings.HasPrefix(c.label, "race") != strings.HasPrefix(refLabel, "race") {
+				// the race build draws different policies and runs its phases in a
+				// different order: it is compared with itself, not with the plain build
 				ref, refLabel = got, c.label
 				fmt.Printf("selftest %s %-9s: %d run digests recorded\n", id, c.label, len(got))
 				continue
